@@ -248,8 +248,21 @@ def execute(cfg, strategy, on_step=None, max_steps=None, attach=None):
     return ex
 
 
+def env_dict(env):
+    """The mapping behind an Env, read without going through its (lock-taking) public methods: the recorder runs
+    between two steps of the controlled threads.  The attribute is called `dictionary` today; any other name is found by
+    looking for the one dict-valued attribute."""
+    d = getattr(env, 'dictionary', None)
+    if isinstance(d, dict):
+        return d
+    cands = [v for v in vars(env).values() if isinstance(v, dict)]
+    if len(cands) == 1:
+        return cands[0]
+    raise RuntimeError('cannot find the mapping of the environment object')
+
+
 def status_name(env, i):
-    e = env.dictionary.get('t%d' % i)
+    e = env_dict(env).get('t%d' % i)
     if e is None or 'status' not in e:
         return 'ABSENT'
     try:
@@ -322,7 +335,7 @@ class Recorder:
         tid, op = ctl.trace[-1]
         env = ctl.holder['env']
         backend = ctl.holder['backend']
-        d = env.dictionary
+        d = env_dict(env)
         st, pay, clk = [], [], []
         for i in range(1, n + 1):
             e = d.get('t%d' % i)
@@ -330,7 +343,7 @@ class Recorder:
             st.append(v['st'])
             pay.append(_pay_version(e, i))
             clk.append(_clk_class(e))
-        q = backend.queue
+        q = ctl.queues[-1] if getattr(ctl, 'queues', None) else backend.queue     # the queue of the call in progress
         queue = [getattr(x, 'idx', 0) for x in q.items]      # 0 = a stop sentinel, whatever object it is
         conds = getattr(ctl, 'conds', [])
         cv = conds[-1] if conds else None
